@@ -2,6 +2,7 @@
 from pyvc.contracts import Contract, LoopSpec
 
 M = "superrec2.utils.range_min_query"
+REQUIRES = ["subsequences"]
 
 
 def setup(E):
@@ -119,6 +120,31 @@ def _scopes(E):
     E.registry.scopes[f"{M}:RangeMinQuery.__call__"] = Scope(
         gen, build, describe="all arrays of length <= 5 (8 thorough) over {0,1,2} x all (start, stop), empty ranges included; 30 (400) random arrays of length 9-69",
         nontrivial=lambda r: r["start"] < r["stop"])
+
+    def gen_init(tier, rng):
+        top = 6 if tier != "thorough" else 9
+        for n in range(1, top + 1):
+            for data in itertools.product(range(3), repeat=n):
+                if n >= 5 and sum(data) % (n - 2):
+                    continue
+                yield {"data": list(data)}
+        for n in (15, 16, 17, 31, 32, 33, 64, 65, 100, 128):
+            yield {"data": [rng.randrange(0, 30) for _ in range(n)]}
+
+    def build_init(recipe, src_root):
+        mod = native.import_real(M, src_root)
+        obj = object.__new__(mod.RangeMinQuery)
+
+        def call(self, data):
+            mod.RangeMinQuery.__init__(self, data)
+            self.g_data = list(data)  # the contract's ghost prologue
+
+        u = native.Universe()
+        u.domains["Int"] = list(range(-1, len(recipe["data"]) + 2))
+        return call, {"self": obj, "data": list(recipe["data"])}, u
+
+    E.registry.scopes[f"{M}:RangeMinQuery.__init__"] = Scope(
+        gen_init, build_init, describe="arrays of length <= 6 (9 thorough) over {0,1,2} (sampled from length 5) and random arrays of lengths 15..128 incl. powers of two: the representation invariant is evaluated on the constructed table")
 
     def gen_ilog(tier, rng):
         for v in range(1, 4100):
